@@ -351,9 +351,9 @@ impl Model for RoleModel {
             }
         }
         // the deployer, a trader, a stranger, and every address that appears in an instantiate message
-        // without holding a role ("x" = the price feeds' oracle_hub_contract, "insurance_fund" = the
+        // without holding a role ("oracle_hub" = the price feeds' oracle_hub_contract, "insurance_fund" = the
         // engine's placeholder insurance fund before UpdateConfig)
-        for x in ["owner", "alice", "stranger", "x", "insurance_fund"] {
+        for x in ["owner", "alice", "stranger", "oracle_hub", "insurance_fund"] {
             senders.insert(x.into());
         }
         senders.insert(w.engine.to_string());
